@@ -51,9 +51,7 @@ class Sc:
             self.ev("Await", i=i)
 
     def fopen(self, to):
-        self.sid = self.sid % 3 + 1
-        while self.sid in self.stream.values():
-            self.sid = self.sid % 3 + 1
+        self.sid += 1
         self.stream[to] = self.sid
         self.ev("FOpen", s=self.sid, to=to)
 
@@ -277,17 +275,26 @@ def mutators():
 
 # ----------------------------------------------------------------------------------------------------------------------
 def design_check(o, thorough):
+    """Exhaustive configurations, liveness configurations and the controls, run concurrently (scratch dirs are made first:
+    vlib.scratch is not thread-safe)."""
+    from concurrent.futures import ThreadPoolExecutor
     pid = o.pid
-    cfg = "DKGSyncMC.cfg" if thorough else "DKGSyncMC_quick.cfg"
-    r = vlib.tlc(pid, FAMILY, "DKGSyncMC", cfg, timeout=1500)
-    vlib.require_mc_ok(r, cfg)
-    o.add_mc(cfg, r)
-    for c in ["DKGSyncMC_crash.cfg", "DKGSyncMC_live.cfg", "DKGSyncMC_liveerr.cfg"] if thorough else ["DKGSyncMC_crash.cfg", "DKGSyncMC_liveerr.cfg"]:
-        r = vlib.tlc(pid, FAMILY, "DKGSyncMC", c, timeout=900)
-        vlib.require_mc_ok(r, c)
-        o.add_mc(c, r)
-    for c, want, what in CONTROLS:
-        r = vlib.tlc(pid, FAMILY, "DKGSyncMC", c, timeout=600, workers=4)
+    main_cfg = "DKGSyncMC.cfg" if thorough else "DKGSyncMC_quick.cfg"
+    ok_cfgs = [main_cfg, "DKGSyncMC_crash.cfg", "DKGSyncMC_liveerr.cfg"] + (["DKGSyncMC_live.cfg"] if thorough else [])
+    jobs = [(c, None, None) for c in ok_cfgs] + [(c, want, what) for c, want, what in CONTROLS]
+    dirs = [vlib.scratch(pid, FAMILY) for _ in jobs]
+    half = max(2, vlib.NCPU // 2)
+
+    def run(k):
+        c = jobs[k][0]
+        return vlib.tlc(pid, FAMILY, "DKGSyncMC", c, timeout=1500, sdir=dirs[k], workers=half if c == main_cfg else 2)
+    with ThreadPoolExecutor(max_workers=len(jobs)) as ex:
+        res = list(ex.map(run, range(len(jobs))))
+    for (c, want, what), r in zip(jobs, res):
+        if want is None:
+            vlib.require_mc_ok(r, c)
+            o.add_mc(c, r)
+            continue
         got = r.violation
         if got is None and "Temporal property" in r.out and "was violated" in r.out:
             got = "temporal"
